@@ -785,6 +785,23 @@ class TaskGroup(abc.TaskGroup):
 
             loop = get_running_loop()
             try:
+                if not self._tasks:
+                    # If there are no child tasks to wait on, run at least one checkpoint
+                    # anyway
+                    try:
+                        await AsyncIOBackend.cancel_shielded_checkpoint()
+                    except CancelledError as exc:
+                        # A native cancellation got through the shield; handle it like
+                        # in the wait loop below so that tasks started meanwhile are
+                        # still waited on
+                        self.cancel_scope.cancel()
+                        if exc_val is None or (
+                            isinstance(exc_val, CancelledError)
+                            and not is_anyio_cancellation(exc)
+                        ):
+                            exc_val = exc
+
+                # Tasks may have been started in this group during the checkpoint above
                 if self._tasks:
                     with CancelScope() as wait_scope:
                         while self._tasks:
@@ -808,10 +825,6 @@ class TaskGroup(abc.TaskGroup):
                                     exc_val = exc
 
                             self._on_completed_fut = None
-                else:
-                    # If there are no child tasks to wait on, run at least one checkpoint
-                    # anyway
-                    await AsyncIOBackend.cancel_shielded_checkpoint()
 
                 if self._exceptions:
                     # The exception that got us here should already have been
